@@ -48,7 +48,7 @@ def analyse(ll, nthreads, opts=None, log=None, mode='sc'):
             bad = en
         groups.setdefault((kind, msg), []).append(bad)
     # one combined query for everything that must be unreachable; split only if it is satisfiable
-    must_unsat = [(k, b) for k, b in sorted(groups.items(), key=lambda x: x[0]) if k[0] in ('ASSERT', 'BOUND')]
+    must_unsat = [(k, b) for k, b in sorted(groups.items(), key=lambda x: x[0]) if k[0] in ('ASSERT', 'BOUND', 'UNSUP')]
     split = True
     if len(must_unsat) > 1:
         r, model, q = M.solve([z3.Or(*[z3.Or(*b) for _, b in must_unsat])], 'all %d assertion groups at once: %s' % (len(must_unsat), ' | '.join(k[1][:40] for k, _ in must_unsat)[:600]))
@@ -56,7 +56,7 @@ def analyse(ll, nthreads, opts=None, log=None, mode='sc'):
             split = False
             res['n_assertion_groups'] = len(must_unsat)
     for (kind, msg), bads in sorted(groups.items(), key=lambda x: x[0]):
-        if kind in ('ASSERT', 'BOUND') and not split: continue
+        if kind in ('ASSERT', 'BOUND', 'UNSUP') and not split: continue
         r, model, q = M.solve([z3.Or(*bads)], '%s: %s' % (kind.lower(), msg))
         if r == 'unknown':
             res['undecided'].append('%s: %s (%s)' % (kind, msg, q.get('reason')))
@@ -65,6 +65,8 @@ def analyse(ll, nthreads, opts=None, log=None, mode='sc'):
             else: res['undecided'].append('witness not reachable: ' + msg)
         elif kind == 'BOUND':
             if r == 'sat': res['undecided'].append('bound insufficient: ' + msg)
+        elif kind == 'UNSUP':
+            if r == 'sat': res['undecided'].append(msg + ' (reachable)')
         elif r == 'sat':
             res['violations'].append({'assertion': msg, 'trace': M.trace(model), 'nondet': nondet_of(M, model)})
     # lifetime
